@@ -1,0 +1,119 @@
+//! Verification seams. Compiled only with `--cfg fe2o3_amqp_verif`.
+//!
+//! A deterministic simulator installs thread-local hooks that take over the
+//! sources of nondeterminism the engines depend on: which executor runs the
+//! engine tasks, what happens at declared schedule points, and where entropy
+//! comes from. When nothing is installed every function here falls back to
+//! the behaviour of a normal build.
+
+use std::cell::RefCell;
+use std::future::Future;
+use std::pin::Pin;
+use std::task::{Context, Poll};
+
+use tokio::task::JoinHandle;
+
+/// A boxed engine task handed to the simulator
+pub type BoxedTask = Pin<Box<dyn Future<Output = ()> + Send + 'static>>;
+
+/// Hooks a simulator installs on the current thread
+#[allow(missing_debug_implementations)]
+pub struct Hooks {
+    /// Takes ownership of an engine task instead of `tokio::spawn`
+    pub spawn: Box<dyn Fn(&'static str, BoxedTask)>,
+    /// Decides whether the named schedule point yields to the scheduler
+    pub sched_point: Box<dyn Fn(&'static str) -> bool>,
+    /// Fills the buffer with simulator-chosen bytes
+    pub entropy: Box<dyn Fn(&mut [u8])>,
+}
+
+thread_local! {
+    static HOOKS: RefCell<Option<Hooks>> = const { RefCell::new(None) };
+}
+
+/// Install the hooks on the current thread
+pub fn install(hooks: Hooks) {
+    HOOKS.with(|h| *h.borrow_mut() = Some(hooks));
+}
+
+/// Remove the hooks from the current thread
+pub fn uninstall() {
+    HOOKS.with(|h| *h.borrow_mut() = None);
+}
+
+/// Spawn an engine task
+pub(crate) fn spawn<F>(name: &'static str, fut: F) -> JoinHandle<()>
+where
+    F: Future<Output = ()> + Send + 'static,
+{
+    let installed = HOOKS.with(|h| h.borrow().is_some());
+    if installed {
+        let task: BoxedTask = Box::pin(fut);
+        HOOKS.with(|h| {
+            if let Some(hooks) = h.borrow().as_ref() {
+                (hooks.spawn)(name, task)
+            }
+        });
+        tokio::spawn(async {})
+    } else {
+        tokio::spawn(fut)
+    }
+}
+
+#[allow(dead_code)]
+struct YieldOnce(bool);
+
+impl Future for YieldOnce {
+    type Output = ();
+
+    fn poll(mut self: Pin<&mut Self>, cx: &mut Context<'_>) -> Poll<()> {
+        if self.0 {
+            Poll::Ready(())
+        } else {
+            self.0 = true;
+            cx.waker().wake_by_ref();
+            Poll::Pending
+        }
+    }
+}
+
+/// A declared schedule point: another task may run here if the simulator says so
+#[allow(dead_code)]
+pub(crate) async fn sched_point(name: &'static str) {
+    let yield_now = HOOKS.with(|h| match h.borrow().as_ref() {
+        Some(hooks) => (hooks.sched_point)(name),
+        None => false,
+    });
+    if yield_now {
+        YieldOnce(false).await
+    }
+}
+
+/// Overwrite `buf` with simulator entropy. Returns `false` (and leaves `buf`
+/// untouched) when no simulator is installed.
+#[allow(dead_code)]
+pub(crate) fn entropy(buf: &mut [u8]) -> bool {
+    HOOKS.with(|h| match h.borrow().as_ref() {
+        Some(hooks) => {
+            (hooks.entropy)(buf);
+            true
+        }
+        None => false,
+    })
+}
+
+/// Stands in for the `tokio` path at the coordinator spawn site in
+/// `transaction/session.rs`
+#[cfg(feature = "transaction")]
+pub(crate) mod coordinator_seam {
+    use std::future::Future;
+
+    use tokio::task::JoinHandle;
+
+    pub(crate) fn spawn<F>(fut: F) -> JoinHandle<()>
+    where
+        F: Future<Output = ()> + Send + 'static,
+    {
+        super::spawn("txn-coordinator", fut)
+    }
+}
